@@ -296,6 +296,7 @@ static struct mtbl_reader *readers[NSLOT];
 static struct mtbl_merger *mergers[NSLOT];
 static struct mtbl_sorter *sorters[NSLOT];
 static struct mtbl_fileset *filesets[NSLOT];
+static int fs_mcid[NSLOT];	/* id of the merge closure registered with each fileset handle, -1 none */
 
 struct itslot {
 	struct mtbl_iter *it;
@@ -830,7 +831,8 @@ static void run_line(char *line) {
 			uint32_t iv = !strcmp(ARG(3), "never") ? MTBL_FILESET_RELOAD_INTERVAL_NEVER : (uint32_t)strtoul(ARG(3), NULL, 10);
 			mtbl_fileset_options_set_reload_interval(o, iv);
 		}
-		if (IARG(4)) mtbl_fileset_options_set_merge_func(o, merge_bag, new_mclos((int)IARG(4), -1));
+		fs_mcid[f] = -1;
+		if (IARG(4)) { fs_mcid[f] = n_mclos; mtbl_fileset_options_set_merge_func(o, merge_bag, new_mclos((int)IARG(4), -1)); }
 		if (IARG(5)) mtbl_fileset_options_set_dupsort_func(o, dupsort_bytes, &the_dupclos);
 		if (strcmp(ARG(6), "-")) {
 			struct fnfilter *ff = &fnfilters[n_fnfilters++];
@@ -855,6 +857,15 @@ static void run_line(char *line) {
 		int f = IARG(1);
 		mtbl_fileset_reload_now(filesets[f]);
 		sb_printf(&s, "{\"e\":\"FsReloadNow\",\"f\":%d}", f);
+	} else if (!strcmp(op, "fs_partition")) {
+		/* fs_partition F chars M1 M2: files whose name starts with one of chars go to merger M1, the others to M2 */
+		int f = IARG(1), m1 = IARG(3), m2 = IARG(4);
+		struct fnfilter *ff = &fnfilters[n_fnfilters++];
+		snprintf(ff->chars, sizeof ff->chars, "%s", ARG(2));
+		mtbl_fileset_partition(filesets[f], fname_filter, ff, &mergers[m1], &mergers[m2]);
+		sb_printf(&s, "{\"e\":\"FsPartition\",\"f\":%d,\"chars\":", f);
+		sb_hex(&s, (const uint8_t *)ff->chars, strlen(ff->chars));
+		sb_printf(&s, ",\"m1\":%d,\"m2\":%d,\"mc\":%d}", m1, m2, fs_mcid[f]);
 	} else if (!strcmp(op, "fs_destroy")) {
 		int f = IARG(1);
 		mtbl_fileset_destroy(&filesets[f]);
